@@ -1,88 +1,67 @@
 import ZChain.Model.Round
-/-! Invariant of the concurrent phase model when every phase writer runs under `r.mutex` (C37). Core-only. -/
+/-! Concurrent phase model (C37): with `setPhase` as a load/compare-and-swap loop no atomic step of any thread lowers
+the phase, whatever the threads' programs are, as long as they contain no explicit `reset` (and not the historical
+`storeIfGt`). Core-only. -/
 namespace ZChain.Round.Conc
 
-/-- a thread's remaining program: a sequence of `setPhase(v)` calls, each under the mutex -/
-def prog (vs : List Int) : List Instr := (vs.map lockedSetPhaseI).flatten
+/-- an instruction that cannot lower the phase: everything but `ResetPhase` and the pre-8870ba0 store -/
+def Instr.safe : Instr → Bool
+  | .reset _ => false
+  | .storeIfGt _ => false
+  | _ => true
 
-theorem prog_nil : prog [] = [] := rfl
-theorem prog_cons (v : Int) (vs : List Int) :
-    prog (v :: vs) = .lock :: .load :: .storeIfGt v :: .unlock :: prog vs := rfl
-
-/-- outside any critical section -/
-def Idle (t : Thread) : Prop := ∃ vs, t.rem = prog vs
-
-/-- inside its critical section (after `lock`), in one of its three positions; between the load and the store
-the register holds the CURRENT phase (nobody else can have stored meanwhile) -/
-def InCS (ph : Int) (t : Thread) : Prop :=
-  ∃ v vs, t.rem = .load :: .storeIfGt v :: .unlock :: prog vs ∨
-    (t.rem = .storeIfGt v :: .unlock :: prog vs ∧ t.reg = ph) ∨
-    t.rem = .unlock :: prog vs
-
-def Inv (s : CS) : Prop :=
-  (s.mutex = false ∧ ∀ i, Idle (s.thr i)) ∨
-  (s.mutex = true ∧ ∃ h, InCS s.phase (s.thr h) ∧ ∀ j, j ≠ h → Idle (s.thr j))
+/-- every thread's remaining program consists of lock / unlock / load / cas -/
+def Safe (s : CS) : Prop := ∀ i, ∀ ins ∈ (s.thr i).rem, ins.safe = true
 
 theorem upd_same (f : Nat → Thread) (i : Nat) (t : Thread) : upd f i t i = t := by simp [upd]
 theorem upd_other (f : Nat → Thread) (i j : Nat) (t : Thread) (h : j ≠ i) : upd f i t j = f j := by simp [upd, h]
 
-/-- one atomic step of any thread keeps the invariant and does not lower the phase -/
-theorem cstep_inv (s : CS) (i : Nat) (hs : Inv s) : Inv (cstep s i) ∧ s.phase ≤ (cstep s i).phase := by
-  rcases hs with ⟨hm, hidle⟩ | ⟨hm, h, hcs, hothers⟩
-  · -- mutex free, everybody idle
-    obtain ⟨vs, hvs⟩ := hidle i
-    cases vs with
-    | nil =>
-      have : cstep s i = s := by simp only [cstep, hvs, prog_nil]
-      rw [this]; exact ⟨Or.inl ⟨hm, hidle⟩, Int.le_refl _⟩
-    | cons v vs =>
-      have hstep : cstep s i = { s with mutex := true, thr := upd s.thr i { s.thr i with rem := .load :: .storeIfGt v :: .unlock :: prog vs } } := by
-        simp [cstep, hvs, prog_cons, hm]
-      rw [hstep]
-      refine ⟨Or.inr ⟨rfl, i, ?_, ?_⟩, Int.le_refl _⟩
-      · refine ⟨v, vs, Or.inl ?_⟩
-        simp [upd_same]
-      · intro j hj
-        simp only [upd_other _ _ _ _ hj]
-        exact hidle j
-  · -- mutex held by h
-    by_cases hi : i = h
-    · subst hi
-      obtain ⟨v, vs, h1 | ⟨h2, hreg⟩ | h3⟩ := hcs
-      · -- load
-        have hstep : cstep s i = { s with thr := upd s.thr i { rem := .storeIfGt v :: .unlock :: prog vs, reg := s.phase } } := by
-          simp only [cstep, h1]
-        rw [hstep]
-        refine ⟨Or.inr ⟨hm, i, ⟨v, vs, Or.inr (Or.inl ?_)⟩, ?_⟩, Int.le_refl _⟩
-        · simp [upd_same]
-        · intro j hj; simp only [upd_other _ _ _ _ hj]; exact hothers j hj
-      · -- conditional store: the register equals the current phase
-        have hstep : cstep s i = { s with phase := (if v > (s.thr i).reg then v else s.phase), thr := upd s.thr i { s.thr i with rem := .unlock :: prog vs } } := by
-          simp only [cstep, h2]
-        rw [hstep]
-        refine ⟨Or.inr ⟨hm, i, ⟨v, vs, Or.inr (Or.inr ?_)⟩, ?_⟩, ?_⟩
-        · simp [upd_same]
-        · intro j hj; simp only [upd_other _ _ _ _ hj]; exact hothers j hj
-        · simp only [hreg]; split <;> omega
-      · -- unlock
-        have hstep : cstep s i = { s with mutex := false, thr := upd s.thr i { s.thr i with rem := prog vs } } := by
-          simp only [cstep, h3]
-        rw [hstep]
-        refine ⟨Or.inl ⟨rfl, ?_⟩, Int.le_refl _⟩
-        intro j
-        by_cases hj : j = i
-        · subst hj; exact ⟨vs, by simp [upd_same]⟩
-        · simp only [upd_other _ _ _ _ hj]; exact hothers j hj
-    · -- another thread: idle, and its next instruction (if any) is `lock`, which blocks
-      obtain ⟨vs, hvs⟩ := hothers i hi
-      have : cstep s i = s := by
-        cases vs with
-        | nil => simp only [cstep, hvs, prog_nil]
-        | cons v vs => simp [cstep, hvs, prog_cons, hm]
-      rw [this]
-      exact ⟨Or.inr ⟨hm, h, hcs, hothers⟩, Int.le_refl _⟩
+/-- a thread's program is replaced by `new`, all of whose instructions are safe -/
+theorem safe_upd {s : CS} (hs : Safe s) (i : Nat) (t : Thread) (ht : ∀ ins ∈ t.rem, ins.safe = true)
+    (ph : Int) (m : Bool) : Safe { phase := ph, mutex := m, thr := upd s.thr i t } := by
+  intro j ins hins
+  by_cases hj : j = i
+  · subst hj; simp only [upd_same] at hins; exact ht ins hins
+  · simp only [upd_other _ _ _ _ hj] at hins; exact hs j ins hins
 
-theorem trace_ge (sched : List Nat) : ∀ (s : CS), Inv s → ∀ x ∈ trace s sched, s.phase ≤ x := by
+/-- **one atomic step**: programs stay safe, and the phase does not go down. The only step that writes the phase
+is a successful `cas v`, which requires `v > reg` and `phase = reg` at that very moment, i.e. `v > phase`. -/
+theorem cstep_safe (s : CS) (i : Nat) (hs : Safe s) : Safe (cstep s i) ∧ s.phase ≤ (cstep s i).phase := by
+  have hi := hs i
+  unfold cstep
+  simp only
+  cases hrem : (s.thr i).rem with
+  | nil => exact ⟨hs, Int.le_refl _⟩
+  | cons ins rest =>
+    rw [hrem] at hi
+    have hrest : ∀ x ∈ rest, x.safe = true := fun x hx => hi x (List.mem_cons_of_mem _ hx)
+    have hhead : ins.safe = true := hi ins List.mem_cons_self
+    cases ins with
+    | lock =>
+      simp only
+      split
+      · exact ⟨hs, Int.le_refl _⟩
+      · exact ⟨safe_upd hs i _ hrest _ _, Int.le_refl _⟩
+    | unlock => exact ⟨safe_upd hs i _ hrest _ _, Int.le_refl _⟩
+    | load => exact ⟨safe_upd hs i _ hrest _ _, Int.le_refl _⟩
+    | cas v =>
+      simp only
+      split
+      · exact ⟨safe_upd hs i _ hrest _ _, Int.le_refl _⟩
+      · split
+        · rename_i h1 h2
+          exact ⟨safe_upd hs i _ hrest _ _, by simp only; omega⟩
+        · refine ⟨safe_upd hs i _ ?_ _ _, Int.le_refl _⟩
+          intro x hx
+          simp only [List.mem_cons] at hx
+          rcases hx with rfl | rfl | hx
+          · rfl
+          · rfl
+          · exact hrest x hx
+    | storeIfGt v => simp [Instr.safe] at hhead
+    | reset v => simp [Instr.safe] at hhead
+
+theorem trace_ge (sched : List Nat) : ∀ (s : CS), Safe s → ∀ x ∈ trace s sched, s.phase ≤ x := by
   induction sched with
   | nil => intro s _ x hx; simp [trace] at hx; omega
   | cons i is ih =>
@@ -90,32 +69,62 @@ theorem trace_ge (sched : List Nat) : ∀ (s : CS), Inv s → ∀ x ∈ trace s 
     simp only [trace, List.mem_cons] at hx
     rcases hx with rfl | hx
     · exact Int.le_refl _
-    · have := cstep_inv s i hs
+    · have := cstep_safe s i hs
       exact Int.le_trans this.2 (ih _ this.1 x hx)
 
-theorem trace_pairwise (sched : List Nat) : ∀ (s : CS), Inv s → (trace s sched).Pairwise (· ≤ ·) := by
+theorem trace_pairwise (sched : List Nat) : ∀ (s : CS), Safe s → (trace s sched).Pairwise (· ≤ ·) := by
   induction sched with
   | nil => intro s _; simp [trace]
   | cons i is ih =>
     intro s hs
-    have := cstep_inv s i hs
+    have := cstep_safe s i hs
     simp only [trace, List.pairwise_cons]
     exact ⟨fun x hx => Int.le_trans this.2 (trace_ge is _ this.1 x hx), ih _ this.1⟩
 
-theorem init_inv (p0 : Int) (progs : List (List Int)) : Inv (initCS p0 (progs.map prog)) := by
-  refine Or.inl ⟨rfl, fun i => ?_⟩
-  unfold initCS Idle
-  simp only
+theorem init_safe (p0 : Int) (progs : List (List Instr)) (h : ∀ p ∈ progs, ∀ ins ∈ p, ins.safe = true) :
+    Safe (initCS p0 progs) := by
+  intro i ins hins
+  unfold initCS at hins
+  simp only at hins
   by_cases hi : i < progs.length
-  · refine ⟨progs[i], ?_⟩
-    rw [List.getD_eq_getElem?_getD, List.getElem?_map, List.getElem?_eq_getElem hi]
-    rfl
-  · refine ⟨[], ?_⟩
-    rw [List.getD_eq_getElem?_getD, List.getElem?_eq_none (by simpa using hi)]
-    rfl
+  · rw [List.getD_eq_getElem?_getD, List.getElem?_eq_getElem hi] at hins
+    exact h _ (List.getElem_mem hi) ins hins
+  · rw [List.getD_eq_getElem?_getD, List.getElem?_eq_none (by simpa using hi)] at hins
+    simp at hins
 
-theorem locked_trace_monotone (p0 : Int) (progs : List (List Int)) (sched : List Nat) :
-    (trace (initCS p0 (progs.map fun vs => (vs.map lockedSetPhaseI).flatten)) sched).Pairwise (· ≤ ·) :=
-  trace_pairwise sched _ (init_inv p0 progs)
+/-- a call of the round's phase-raising operations: the exported unlocked `SetPhase(v)`, or `setPhase(v)` under
+`r.mutex` (as in `AddNotarizedBlock`, `AddVRFShare`) -/
+inductive Call where
+  | setPhase (v : Int)
+  | lockedSetPhase (v : Int)
+deriving DecidableEq, Repr
+
+def Call.instrs : Call → List Instr
+  | .setPhase v => setPhaseI v
+  | .lockedSetPhase v => lockedSetPhaseI v
+
+def prog (cs : List Call) : List Instr := (cs.map Call.instrs).flatten
+
+theorem prog_safe (cs : List Call) : ∀ ins ∈ prog cs, ins.safe = true := by
+  intro ins hins
+  unfold prog at hins
+  simp only [List.mem_flatten, List.mem_map] at hins
+  obtain ⟨l, ⟨c, _, rfl⟩, hl⟩ := hins
+  cases c <;> simp [Call.instrs, setPhaseI, lockedSetPhaseI] at hl <;> rcases hl with rfl | rfl | rfl | rfl <;> rfl
+
+/-- a failed compare-and-swap means some other thread changed the phase since this thread's load: the retry loop
+only spins when the phase really moved -/
+theorem cas_retries_only_when_moved (s : CS) (i : Nat) (v : Int) (rest : List Instr)
+    (h : (s.thr i).rem = .cas v :: rest) (hretry : ((cstep s i).thr i).rem = .load :: .cas v :: rest) :
+    s.phase ≠ (s.thr i).reg ∧ (s.thr i).reg < v := by
+  unfold cstep at hretry
+  simp only [h] at hretry
+  by_cases h1 : v ≤ (s.thr i).reg
+  · simp only [h1, if_true, upd_same] at hretry
+    have := congrArg List.length hretry; simp at this; omega
+  · by_cases h2 : s.phase = (s.thr i).reg
+    · simp only [h1, h2, if_true, if_false, upd_same] at hretry
+      have := congrArg List.length hretry; simp at this; omega
+    · exact ⟨h2, by omega⟩
 
 end ZChain.Round.Conc
